@@ -116,7 +116,7 @@ def apply_ops(text, ops):
     for op, a, b in ops:
         lines = _LINE_BREAK.split(text)
         eol = '\r\n' if '\r\n' in text else ('\r' if '\r' in text and '\n' not in text else '\n')
-        op = op % 14
+        op = op % 15
         if op in (0, 1):
             c = CHARCLASS[b % len(CHARCLASS)]
             occ = [i for i, ch in enumerate(text) if ch == c]
@@ -184,6 +184,11 @@ def apply_ops(text, ops):
                 lines = [lines[0].rstrip() + lines[-1].lstrip()]
         elif op == 12:
             eol = EOLS[b % 3]
+        elif op == 14:
+            # valueless copy-func/free-func on the identifier: the shapes known to reach the catch-all
+            if len(lines) > 1:
+                l = lines[1].rstrip()
+                lines[1] = l + [' (copy-func)', ' (free-func)', ': (copy-func)', ': (free-func) (skip)'][b % 4 if ':' in l else 2 + b % 2]
         else:
             # break one annotation: drop the char right after / before a parenthesis
             occ = [i for i, ch in enumerate(text) if ch in '()']
@@ -311,7 +316,7 @@ def _rec_key(r):
     return (r['type'], r['text'], tuple(tuple(p) for p in r['pos']), r['marker_pos'], r['marker_line'])
 
 
-def common_oracles(x, ctx, pick=0):
+def common_oracles(x, ctx, pick=0, strict=False):
     """Clauses 1, 3 (static part) and 4 for one text X. Returns (trees, records)."""
     # ---- clause 1
     trees, lg = _parse_blocks([(x, FX, SX)])
@@ -354,7 +359,7 @@ def common_oracles(x, ctx, pick=0):
         ctx.label('carveout:deprecated-tagstyle')
     for r in recs:
         if not r['pos']:
-            if _VALIDATE_MSG.match(r['text']) and (cont_line or dep):
+            if _VALIDATE_MSG.match(r['text']) and (cont_line or dep) and not strict:
                 # finding C11-F2: validate() reports through annotations.position, which is None when the
                 # annotations object was (a) copied for a continuation line (GtkDocAnnotations.copy() drops
                 # .position) or (b) the block's default object filled by a deprecated tag-style annotation
@@ -379,7 +384,7 @@ def common_oracles(x, ctx, pick=0):
                     raise Violation('caret-outside-quoted-line', 'marker_pos %d, quoted %r: %r for X=%r' % (mp, ml, r, x))
             if alone and not dep:
                 idx = line - SX
-                if idx == len(src) - 1 and last_has_text and ml != src[idx] and ml in src[idx]:
+                if idx == len(src) - 1 and last_has_text and ml != src[idx] and ml in src[idx] and not strict:
                     # finding C11-F3: for comment text in front of the end token the parser quotes the
                     # stripped comment, not the source line
                     ctx.label('excluded:F3-last-line-quote')
@@ -667,8 +672,13 @@ def _check_main(case, ctx):
             except SystemExit as e:
                 rc = e.code if isinstance(e.code, int) else (0 if e.code is None else 1)
             except Exception as e:
-                ctx.label('main:pipeline-exception')
-                raise Violation('exception-escaped-scanner-main:%s' % type(e).__name__, '%r for X=%r' % (e, x))
+                import traceback
+                inner = [fr.filename for fr in traceback.extract_tb(e.__traceback__) if fr.filename.startswith(REPO + os.sep)]
+                if inner and os.path.basename(inner[-1]) in ('annotationparser.py', 'message.py'):
+                    raise Violation('exception-escaped-scanner-main:%s' % type(e).__name__, '%r for X=%r' % (e, x))
+                # a crash in the later passes on a strange block is not this property's subject
+                ctx.label('main:exception-outside-comment-parser:%s' % type(e).__name__)
+                return
     finally:
         sm.create_source_scanner, sm.write_output = saved
     logged = [r for r in logger.records if r['type'] != MSG.FATAL]
@@ -692,11 +702,11 @@ def check_case(case, ctx):
     ctx.label('kind_' + k)
     if k == 'text':
         x = case['x']
-        trees, recs = common_oracles(x, ctx, len(x))
+        trees, recs = common_oracles(x, ctx, len(x), bool(case.get('strict')))
     elif k == 'mut':
         x = apply_ops(_base_text(case['base']), case['ops'])
         ctx.label('base_fixture' if 'fx' in case['base'] else 'base_model')
-        trees, recs = common_oracles(x, ctx, len(x))
+        trees, recs = common_oracles(x, ctx, len(x), bool(case.get('strict')))
         if len(_LINE_BREAK.split(x)) == 1:
             ctx.label('one-line-block')
     elif k == 'half':
@@ -711,6 +721,16 @@ def check_case(case, ctx):
         ctx.note_nontrivial(case)
         if k == 'mut':
             ctx.sample({'x': x[:500], 'diagnostics': [r['text'] for r in recs][:4]}, 2)
+
+
+def known_shape(case, v):
+    """Keys of the shapes found on the unchanged tree (only reachable with case['strict'];
+    otherwise the oracle excludes them by construction and counts them)."""
+    if v.clause == 'diagnostic-without-position' and _VALIDATE_MSG.search(v.detail.split("'text': ", 1)[-1].lstrip('\'"')):
+        return 'C11-F2-validate-position-lost'
+    if v.clause == 'quoted-line-is-not-source-line' and case.get('strict'):
+        return 'C11-F3-last-line-quote'
+    return None
 
 
 # ------------------------------------------------------------------ plan
